@@ -25,6 +25,7 @@ class Request:
         self.tags = tuple(tags)
         self.jit_kwargs = dict(jit_kwargs or {})
         self.twin_of = None
+        self.cfg_options = None  # options delivered through $PWD/ffcx_options.json
 
     def source(self):
         return PREAMBLE + "\n".join(self.stmts) + "\n"
@@ -39,14 +40,16 @@ class Request:
             exec(s, ns)
         return ns["objs"], ns
 
-    def variant(self, suffix, options=None, jit_kwargs=None, tags=None):
+    def variant(self, suffix, options=None, jit_kwargs=None, tags=None, cfg=None):
         o = dict(self.options)
         o.update(options or {})
         k = dict(self.jit_kwargs)
         k.update(jit_kwargs or {})
-        return Request(
+        r = Request(
             self.name + suffix, self.kind, self.stmts, o, self.tags if tags is None else tags, k
         )
+        r.cfg_options = dict(cfg) if cfg else None
+        return r
 
 
 def _mesh(cell, deg=1):
@@ -745,3 +748,235 @@ _add(
         tags=("family", "qelem", "npstr"),
     )
 )
+
+
+# evaluation points in Fortran order, and the C-ordered array that has the same bytes in memory:
+# same shape, same dtype, same buffer content, different points
+_expr_points("pts_forder", "pts = np.asfortranarray(np.array([[0.25, 0.125], [0.5, 0.25], [0.1, 0.7]]))")
+_expr_points(
+    "pts_corder_same_bytes",
+    "pts = np.array([[0.25, 0.125], [0.5, 0.25], [0.1, 0.7]]).T.copy().reshape(3, 2)",
+)
+_expr_points("pts_corder_same_points", "pts = np.array([[0.25, 0.125], [0.5, 0.25], [0.1, 0.7]])")
+POOL["pts_corder_same_points"].twin_of = "pts_forder"
+
+# options that reach FFCx through $PWD/ffcx_options.json instead of the call: they change the
+# kernels just the same ("goldonly": the file is read once per process, so these requests are
+# only run alone in a fresh process, for the separation oracle)
+_add(
+    Request(
+        "tp_stiff_q2_quad",
+        "forms",
+        [
+            "tp = basix.create_tp_element(basix.ElementFamily.P, basix.CellType.quadrilateral, 2, "
+            "basix.LagrangeVariant.gll_warped)",
+            "tp1 = basix.create_tp_element(basix.ElementFamily.P, basix.CellType.quadrilateral, 1, "
+            "basix.LagrangeVariant.gll_warped)",
+            "mesh = ufl.Mesh(basix.ufl.blocked_element(basix.ufl.wrap_element(tp1), shape=(2,)))",
+            "V = ufl.FunctionSpace(mesh, basix.ufl.wrap_element(tp))",
+            "u = ufl.TrialFunction(V)",
+            "v = ufl.TestFunction(V)",
+            "a = ufl.inner(ufl.grad(u), ufl.grad(v)) * ufl.dx",
+            "objs = [a]",
+        ],
+        tags=("kern", "family"),
+    )
+)
+for _k, _v in (("scalar_type", "float32"), ("table_atol", 5e-2)):
+    _add(POOL["stiff_p2_triangle"].variant(f"@cfg-{_k}", cfg={_k: _v}, tags=("family", "goldonly")))
+_add(POOL["expr_p1_tri_2pts"].variant("@cfg-scalar_type", cfg={"scalar_type": "float32"},
+                                      tags=("family", "goldonly", "expr")))
+
+# requests that FFCx rejects (used only as *earlier, failed* compilations in histories)
+_add(
+    Request(
+        "bad_nonlinear_in_argument",
+        "expressions",
+        [
+            _mesh("quadrilateral"),
+            'el = basix.ufl.element("Lagrange", "quadrilateral", 1)',
+            "V = ufl.FunctionSpace(mesh, el)",
+            "u = ufl.TrialFunction(V)",
+            "pts = np.array([[0.25, 0.25], [0.5, 0.125]], dtype=np.float64)",
+            "objs = [(ufl.sqrt(u * u + 1), pts)]",
+        ],
+        tags=("bad",),
+    )
+)
+_add(
+    _lagrange_form(
+        "bad_nonlinear_form", "triangle", 1, "ufl.sin(u) * v", tags=("bad",),
+    )
+)
+# simplex and facet integrals next to a tensor-product cell integral: what an option that only
+# applies to some integrals (sum_factorization) must not do to the others
+_add(
+    _lagrange_form(
+        "stiff_q1_quad_with_facets", "quadrilateral", 1,
+        "ufl.inner(ufl.grad(u), ufl.grad(v))", tags=("kern",),
+    )
+)
+POOL["stiff_q1_quad_with_facets"].stmts[-2] = (
+    "a = ufl.inner(ufl.grad(u), ufl.grad(v)) * ufl.dx + ufl.inner(u, v) * ufl.ds"
+)
+_add(POOL["tp_stiff_q2_quad"].variant("@sumfact", options={"sum_factorization": True},
+                                      tags=("family", "kern")))
+_add(POOL["tp_stiff_q2_quad"].variant("@cfg-sum_factorization", cfg={"sum_factorization": True},
+                                      tags=("family", "goldonly")))
+
+
+# ---- kernel-pool additions (third session) --------------------------------------------------
+# every block vanishes in table analysis: the kernel body is empty and must still leave A alone
+_add(
+    _lagrange_form(
+        "vanishing_hessian_p1_tri", "triangle", 1,
+        "ufl.inner(ufl.grad(ufl.grad(u)), ufl.grad(ufl.grad(v)))", tags=("kern",),
+    )
+)
+_add(
+    Request(
+        "vanishing_linear_ds_p1_tri",
+        "forms",
+        [
+            _mesh("triangle"),
+            'el = basix.ufl.element("Lagrange", "triangle", 1)',
+            "V = ufl.FunctionSpace(mesh, el)",
+            "v = ufl.TestFunction(V)",
+            "f = ufl.Coefficient(V)",
+            "L = ufl.div(ufl.grad(f)) * v * ufl.ds",
+            "objs = [L]",
+        ],
+        tags=("kern",),
+    )
+)
+# interior facet with coefficients restricted to '-' (the last coefficient's '-' block is the
+# end of w), jump and avg of coefficients
+_add(
+    Request(
+        "dg_coeff_minus_tri",
+        "forms",
+        [
+            _mesh("triangle"),
+            'el = basix.ufl.element("Discontinuous Lagrange", "triangle", 1)',
+            'el2 = basix.ufl.element("Discontinuous Lagrange", "triangle", 2)',
+            "V = ufl.FunctionSpace(mesh, el)",
+            "W = ufl.FunctionSpace(mesh, el2)",
+            "u = ufl.TrialFunction(V)",
+            "v = ufl.TestFunction(V)",
+            "f = ufl.Coefficient(V)",
+            "g = ufl.Coefficient(W)",
+            "a = (ufl.jump(f) * ufl.avg(u) * ufl.avg(v) + g('-') * u('+') * v('-') "
+            "+ ufl.avg(g) * ufl.inner(ufl.jump(ufl.grad(u)), ufl.jump(ufl.grad(v)))) * ufl.dS",
+            "objs = [a]",
+        ],
+        tags=("kern", "facet", "interior"),
+    )
+)
+_add(
+    Request(
+        "dg_coeff_minus_linear_tet",
+        "forms",
+        [
+            _mesh("tetrahedron"),
+            'el = basix.ufl.element("Discontinuous Lagrange", "tetrahedron", 1)',
+            "V = ufl.FunctionSpace(mesh, el)",
+            "v = ufl.TestFunction(V)",
+            "f = ufl.Coefficient(V)",
+            "g = ufl.Coefficient(V)",
+            "L = (f('+') * g('-') * v('-') + ufl.jump(g) * ufl.avg(v)) * ufl.dS",
+            "objs = [L]",
+        ],
+        tags=("kern", "facet", "interior"),
+    )
+)
+# manifold: triangle cells embedded in 3D
+_add(
+    Request(
+        "stiff_p1_tri_manifold",
+        "forms",
+        [
+            'mesh = ufl.Mesh(basix.ufl.element("Lagrange", "triangle", 1, shape=(3,)))',
+            'el = basix.ufl.element("Lagrange", "triangle", 1)',
+            "V = ufl.FunctionSpace(mesh, el)",
+            "u = ufl.TrialFunction(V)",
+            "v = ufl.TestFunction(V)",
+            "a = (ufl.inner(ufl.grad(u), ufl.grad(v)) + u * v) * ufl.dx",
+            "objs = [a]",
+        ],
+        tags=("kern",),
+    )
+)
+# expression whose coefficient lives on a quadrature element / with a vector constant
+_add(
+    Request(
+        "expr_vector_const_quad",
+        "expressions",
+        [
+            _mesh("quadrilateral"),
+            'el = basix.ufl.element("Lagrange", "quadrilateral", 2, shape=(2,))',
+            "V = ufl.FunctionSpace(mesh, el)",
+            "f = ufl.Coefficient(V)",
+            "k = ufl.Constant(mesh, shape=(2,))",
+            "pts = np.array([[0.25, 0.25], [0.5, 0.125], [0.9, 0.9]], dtype=np.float64)",
+            "objs = [(ufl.dot(k, f) * ufl.div(f) + ufl.det(ufl.grad(f)), pts)]",
+        ],
+        tags=("kern", "expr"),
+    )
+)
+
+# two expressions of one request whose signatures agree (same structure, different coefficient
+# objects), and the same (expression, points) pair twice: the objects of one module need
+# distinct names all the same
+_add(
+    Request(
+        "expr_pair_equal_signature",
+        "expressions",
+        [
+            _mesh("triangle"),
+            'el = basix.ufl.element("Lagrange", "triangle", 1)',
+            "V = ufl.FunctionSpace(mesh, el)",
+            "f = ufl.Coefficient(V)",
+            "g = ufl.Coefficient(V)",
+            "pts = np.array([[0.25, 0.25], [0.5, 0.125]], dtype=np.float64)",
+            "objs = [(f * f, pts), (g * g, pts)]",
+        ],
+        tags=("family", "identfam"),
+    )
+)
+_add(
+    Request(
+        "expr_same_pair_twice",
+        "expressions",
+        [
+            _mesh("triangle"),
+            'el = basix.ufl.element("Lagrange", "triangle", 1)',
+            "V = ufl.FunctionSpace(mesh, el)",
+            "f = ufl.Coefficient(V)",
+            "pts = np.array([[0.25, 0.25], [0.5, 0.125]], dtype=np.float64)",
+            "e = (ufl.sin(f), pts)",
+            "objs = [e, e]",
+        ],
+        tags=("family", "identfam"),
+    )
+)
+_add(
+    Request(
+        "form_pair_equal_signature",
+        "forms",
+        [
+            _mesh("triangle"),
+            'el = basix.ufl.element("Lagrange", "triangle", 1)',
+            "V = ufl.FunctionSpace(mesh, el)",
+            "u = ufl.TrialFunction(V)",
+            "v = ufl.TestFunction(V)",
+            "f = ufl.Coefficient(V)",
+            "g = ufl.Coefficient(V)",
+            "a = f * u * v * ufl.dx",
+            "objs = [a, g * u * v * ufl.dx, a]",
+        ],
+        tags=("family", "identfam"),
+    )
+)
+
+# part='diagonal' on a mixed element: the JIT replaces the form by the sum of its diagonal blocks
+_add(POOL["taylor_hood_tri"].variant("@diagonal", options={"part": "diagonal"}, tags=("family", "kern")))
